@@ -328,7 +328,12 @@ func planFor(prop string) *PropPlan {
 		p.Modes = []Mode{{Name: "crash", Quick: 60, Deep: 1500,
 			Run:    func(bin string, seed uint64) *RunReport { return runCrashSweep(bin, prop, seed, false) },
 			Replay: ReplayCrash}}
-		p.Rule = "per sample: a seeded pre-state (sequential history) and one mutating command; the command's clean run yields its K visible system calls; EVERY boundary k in 0..K is a kill point, plus kill before the reply, plus torn writes at offsets {1,2,mid,len-2,len-1}+4 seeded offsets per log write (thorough: every offset for lines up to 512 B) and (C03) ENOSPC/EIO/EINTR returns on the fallible calls; evaluations = sweep members executed; a sample is non-trivial when at least one fault fired; distinct = distinct trace digests of samples"
+		if prop == "C04" {
+			p.Rule = "per sample: a seeded pre-state (sequential history; 1 in 4 with a stale .tmp left by an earlier killed rewrite) and one multi-event command (kind drawn first so that prune/plan/compact/sequence chains get their share; 1 in 3 with a 4-70 KB payload); the command's clean run yields its K visible system calls on .ergo; EVERY boundary k in 0..K is a kill point, plus a kill before the reply is written; after each kill the observation must equal the state before or the state after an uninterrupted twin run with the same clock and entropy; evaluations = sweep members executed; a sample is non-trivial when at least one kill fired; distinct = distinct trace digests of samples"
+		} else {
+			p.Rule = c03Rule
+		}
+		_ = "per sample: a seeded pre-state (sequential history) and one mutating command; the command's clean run yields its K visible system calls; EVERY boundary k in 0..K is a kill point, plus kill before the reply, plus torn writes at offsets {1,2,mid,len-2,len-1}+4 seeded offsets per log write (thorough: every offset for lines up to 512 B) and (C03) ENOSPC/EIO/EINTR returns on the fallible calls; evaluations = sweep members executed; a sample is non-trivial when at least one fault fired; distinct = distinct trace digests of samples"
 	case "C06", "C07", "C08", "C09", "C10", "C11", "C14", "C15", "C16", "C17", "C20":
 		p.Modes = []Mode{seqMode(prop, 400, 12000)}
 		if prop == "C06" || prop == "C11" || prop == "C14" || prop == "C15" || prop == "C20" {
@@ -357,3 +362,5 @@ func planFor(prop string) *PropPlan {
 	}
 	return p
 }
+
+const c03Rule = "per sample: a seeded pre-state (sequential history; 1 in 4 with a stale .tmp left by an earlier killed rewrite) and one mutating command (1 in 3 with a 4-70 KB payload); the command's clean run yields its K visible system calls on .ergo; EVERY boundary k in 0..K is a kill point, plus a kill before the reply, plus torn writes at offsets {1,2,mid,len-2,len-1} and 4-10 seeded offsets per log/tmp write (thorough: every offset for lines up to 512 B), plus ENOSPC/EIO/EMFILE/EINTR returns on the fallible calls and a short write followed by ENOSPC; after each fault: all reads succeed, identity fields old-or-new, then 3-5 follow-up mutations must succeed, take effect and read back; evaluations = sweep members executed; a sample is non-trivial when at least one fault fired; distinct = distinct trace digests of samples"
